@@ -107,7 +107,7 @@ class C12(Prop):
                 m.evaluate(ds)
                 for k in in_names:
                     g = get(k)
-                    if g is not None and not monitors.same_plain(monitors.plain(g), [float(x) for x in ds[k]]):
+                    if g is not None and not monitors.same_num(monitors.plain(g), [float(x) for x in ds[k]]):
                         v.bad('input-value', '%s: get_value(%r)=%r, data supplied %r' % (sd['text'], k, g, ds[k]))
                 for nm, a in alone.items():
                     want = drive.values(a.evaluate(drive.dt_dataset(case['data'])))
@@ -151,7 +151,7 @@ class C12(Prop):
                 end = min(s[-1][0] for s in sig.values())
                 for k in in_names:
                     g = get(k)
-                    if g is not None and not monitors.same_plain(monitors.plain(g), dict(
+                    if g is not None and not monitors.same_num(monitors.plain(g), dict(
                             (a[0], a[1]) for a in drive.ct_args(sig, names))[k]):
                         v.bad('input-value', '%s: get_value(%r)=%r' % (sd['text'], k, g))
                 for nm, a in alone.items():
@@ -192,7 +192,7 @@ class C12(Prop):
                         got = get(nm)
                         if got is None:
                             continue
-                        if not monitors.same_plain(monitors.plain(got), monitors.plain(want)):
+                        if not monitors.same_num(monitors.plain(got), monitors.plain(want)):
                             v.bad('named-value', '%s [%s] signals=%s: after the update with samples %d..%d '
                                   'get_value(%r)=%r, the stand-alone spec %s returned %r' % (
                                       sd, kind, case['signals'], a0, b0 - 1, nm, got, lang.to_text(bound[nm]), want))
